@@ -9,6 +9,7 @@ import CdnsVerif.Driver.Tbl
 import CdnsVerif.Driver.Fs
 import CdnsVerif.Driver.Mrg
 import CdnsVerif.Driver.Sch
+import CdnsVerif.Driver.Blk
 open CdnsVerif.Driver
 
 def dispatch (line : String) : String :=
@@ -24,6 +25,7 @@ def dispatch (line : String) : String :=
   | "fs" :: rest => FsD.handle rest
   | "mrg" :: rest => Mrg.handle rest
   | "sch" :: rest => Sch.handle rest
+  | "blk" :: rest => Blk.handle rest
   | _ => "bad-request"
 
 partial def loop (h : IO.FS.Stream) (out : IO.FS.Stream) : IO Unit := do
